@@ -1,0 +1,13 @@
+//go:build verif
+
+package rtptime
+
+import "time"
+
+// VerifSetTimeNow replaces the package clock used by GlobalDecoder (build tag verif only).
+// It returns a function that restores the previous clock.
+func VerifSetTimeNow(f func() time.Time) func() {
+	prev := timeNow
+	timeNow = f
+	return func() { timeNow = prev }
+}
